@@ -66,7 +66,7 @@ def ofFn [Inhabited α] (dims : List Dim) (f : Env → Option α) : NArr α :=
 /-- `DataArray.transpose(*order)`: same values, dimensions in the given order.
 Names in `order` that the array lacks are ignored (the callers check first). -/
 def transposeTo [Inhabited α] (a : NArr α) (order : List String) : NArr α :=
-  ofFn (order.filterMap fun d => a.dims.find? (·.1 == d)) a.get?
+  ofFn (order.filterMap fun d => (List.lookup d a.dims).map fun s => (d, s)) a.get?
 
 /-- `utils.move_dimensions_to_end(a, dims)`; `none` = ValueError (a named dimension is absent) -/
 def moveToEnd [Inhabited α] (a : NArr α) (dims : List String) : Option (NArr α) :=
